@@ -90,6 +90,11 @@ def c02_conversation(conv, p):
         b_ops += [["newchannel", "sub"], ["send_chan", "main", "sub", p.get("wrap", "bare")]]
     else:
         a_pre = []
+    stray = [["newchannel", "stray"], ["newchannel", "reply"], ["send_chan", "stray", "reply", "list"]]
+    if p.get("stray") == "a":
+        a_pre = a_pre + stray
+    elif p.get("stray") == "b":
+        b_ops += stray
     b_ops += a2b["consumer_ops"] + b2a["sender_ops"] + a2b["wait_ops"]
     if p["kind_a"] == "iter" and p["sub"]:
         # iteration ends at EOF: the B side closes the sub channel once it is completely done
@@ -111,6 +116,9 @@ def c02_params(max_items=5, max_blob=0, allow_sub=True, allow_threads=True):
         kind_a=kinds_a, rcv_a=st.integers(1, 2 if allow_threads else 1),
         sub=st.sampled_from([None, None, "a", "b"]) if allow_sub else st.none(),
         wrap=st.sampled_from(["bare", "list", "tuple", "dict"]),
+        # a side sends an item containing a channel over a fresh channel the peer has never heard of: the item is
+        # dropped by the receiving side and must not disturb anything else
+        stray=st.sampled_from([None, None, None, None, "a", "b"]),
     ))
 
 
